@@ -13,7 +13,7 @@ from pyvc.tree import (SEQ_ATTR as SeqAttr, ATTR_PAIR as AttrPair, PAT as Pat, A
                        FLAGS as Flags)
 from spec.vocab_tree import (parent, contents, idx, depth, is_tag, is_doc, is_navstr, is_comment, is_cdata, is_pi, is_decl,
                              is_doctype, text, name, prefix, namespace, is_xml_flag, next_sibling, previous_sibling, same,
-                             ascii_lower, height, bidi_class, descendants, dsize, dindex, next_element, ls_starts, ls_end, ns_get, html_ns_map, fake_parent, rattrs, norm, as_str, is_str_val, ws_tokens, is_list_val, as_list, attr_ns, attr_local, pat_match, join_sp, has_non_ws, strip_nonempty, wild_strip, py_lower, split_dash, join_empty, NS_XHTML, NS_XML)
+                             ascii_lower, height, bidi_class, descendants, dsize, dindex, next_element, ls_starts, ls_end, unesc_plain, unesc_string, ns_get, html_ns_map, fake_parent, rattrs, norm, as_str, is_str_val, ws_tokens, is_list_val, as_list, attr_ns, attr_local, pat_match, join_sp, has_non_ws, strip_nonempty, wild_strip, py_lower, split_dash, join_empty, NS_XHTML, NS_XML)
 from spec.vocab_ir import (sel_is_null, SEL_EMPTY, SEL_ROOT, SEL_DEFAULT, SEL_INDETERMINATE, SEL_SCOPE, SEL_DIR_LTR, SEL_DIR_RTL,
                            SEL_IN_RANGE, SEL_OUT_OF_RANGE, SEL_DEFINED, SEL_PLACEHOLDER_SHOWN, DIR_FLAGS, RANGES)
 
@@ -437,12 +437,10 @@ def first_or_none(seq: SeqNode) -> Node:
     return None if len(seq) == 0 else seq[0]
 
 
-@abstract
 def unesc(content: str, string: bool) -> str:
-    """css-syntax 4.3.7 escape decoding of a whole string (executable: the real css_unescape; in SMT an uninterpreted function,
-    so contracts that mention it are about how callers compose it, not about its value)."""
-    from soupsieve import css_parser as _cp
-    return _cp.css_unescape(content, string)
+    """css-syntax 4.3.7 escape decoding of a whole string: the escapes of the identifier grammar, or of the string grammar when the text
+    comes from inside quotes (each escape is replaced by the value css_unescape.replace is proved to return for it)."""
+    return unesc_string(content) if string else unesc_plain(content)
 
 
 # ---------------------------------------------------------------------------------------------- attributes (C01.O5, C11.O3, C18)
